@@ -143,6 +143,48 @@ def run(ctx):
             events.append(dict(ev="crash", msg=dc.msg[-800:]))
             continue
         collect(events, evs, s1, [c1], check_pipeline=True)
+    # ---------------- requests while storage fails: real processor + three real CPTV recorders, each script run with and
+    # without its test-recording requests (differential: the requests are the only difference)
+    npairs = 25 if tier == "quick" else 300
+    rs = []
+    for i in range(npairs):
+        fps = rng.choice([1, 2, 3])
+        preview, trig = rng.choice([0, 1, 2]), rng.choice([1, 1, 2])
+        mn = rng.choice([0, 1, 2]); mx = mn + rng.choice([1, 2, 4])
+        steps = []
+        for k in range(rng.randint(40, 110)):
+            r = rng.random()
+            if r < 0.07:
+                steps += [dict(a="breakdir"), dict(a="snapreq"), dict(a="frame", motion=rng.random() < 0.5), dict(a="fixdir")] if rng.random() < 0.6 \
+                    else [dict(a="breakdir")]
+            elif r < 0.13:
+                steps.append(dict(a="fixdir"))
+            elif r < 0.15:
+                steps.append(dict(a="bad"))
+            elif r < 0.17:
+                steps.append(dict(a="reset"))
+            elif r < 0.24:
+                steps.append(dict(a="snapreq"))
+            else:
+                steps.append(dict(a="frame", motion=rng.random() < 0.5))
+        steps.append(dict(a="fixdir"))
+        steps += [dict(a="frame", motion=False) for _ in range(preview * fps + trig + mx * fps + 25)]
+        base = dict(Fps=fps, Preview=preview, Trig=trig, Min=mn, Max=mx, const=rng.random() < 0.5, blip=0)
+        rs.append(dict(base, steps=steps))
+        rs.append(dict(base, steps=[st for st in steps if st["a"] != "snapreq"]))
+    inp, outp = ctx.path("run", "reqpairs.json"), ctx.path("run", "reqpairs.ndjson")
+    json.dump(dict(scripts=rs), open(inp, "w"))
+    r = subprocess.run([binp0, "-test.run", "^TestVerifRealSinks$"], env=dict(os.environ, VERIF_SCRIPT=inp, VERIF_OUT=outp),
+                       capture_output=True, text=True, timeout=1800)
+    if r.returncode != 0 or not os.path.exists(outp):
+        raise vlib.Infra("real-sinks driver failed: " + (r.stdout + r.stderr)[-2500:])
+    pe = vlib.read_ndjson(outp)
+    if len(pe) != len(rs):
+        raise vlib.Infra("real-sinks driver returned %d results for %d scripts" % (len(pe), len(rs)))
+    for i in range(npairs):
+        a, b = pe[2 * i], pe[2 * i + 1]
+        events.append(dict(ev="reqpair", pair=i, panic_with=bool(a["panic"]), panic_without=bool(b["panic"]), panic=a["panic"][:300],
+                           **{"with": a.get("all") or [], "without": b.get("all") or []}, script=rs[2 * i]))
     tp = ctx.path("run", "snap.ndjson")
     vlib.write_ndjson(tp, events)
     t = ctx.tlc("mon", "SnapTrace", mkcfg(init="TInit", next_="TNext", post="Consumed"), workers=1,
@@ -163,6 +205,8 @@ def run(ctx):
                     traces_validated_against_impl=nrace * int(race_ok) + nstress, samples=[snaps[0] if snaps else {"none": True}],
                     exhaustive=True, design=dict(N=[1, 2], F=3, requesters=3, unsynced_model_violates_NoRace=not du["ok"]),
                     race_detector_runs=nrace * int(race_ok), race_reports=races_seen, stress_runs=nstress,
+                    request_pairs_on_real_sinks=npairs,
+                    request_pairs_with_recordings=sum(1 for e in events if e["ev"] == "reqpair" and e["without"]),
                     snapshots_returned=len(snaps), snapshots_with_lower_bound=sum(1 for e in snaps if e["lb"] > 0),
                     distinct_snapshot_values=len({tuple(e["values"]) for e in snaps}),
                     evaluations=len(events), distinct_nontrivial=len({json.dumps([e.get("values"), e.get("lb")]) for e in snaps}) + 2,
